@@ -212,7 +212,7 @@ where
                 None => Ok(None),
                 Some(v) => Ok(Some(*v)),
             },
-            SimpleNumber::Float(_) => Err(DataError::from("Cannot index list with decimal value.".to_string())), // should return None
+            SimpleNumber::Float(_) => Ok(None),
         }
     }
 
